@@ -111,6 +111,10 @@ def op_text(o):
     if k == "L":
         fr = o[2]
         return f"L {o[1]} {len(fr)} " + " ".join(str(x) for f in fr for x in f) + f" {o[3]} {o[4]} " + text(o[5])
+    if k == "NC":
+        return f"NC {o[1]} {o[2]} " + text(o[3])
+    if k == "IT":  # IT kind n pre mode k cap extra tree
+        return "IT " + " ".join(str(x) for x in o[1:8]) + " " + text(o[8])
     raise ValueError(k)
 
 
@@ -127,6 +131,10 @@ def op_coq(o):
         return f"OTake {z(o[1])} {z(o[2])} {z(o[3])} {coq(o[4])}"
     if k == "L":
         return f"OLift {z(o[1])} {F.zlistlist(o[2])} {z(o[3])} {z(o[4])} {coq(o[5])}"
+    if k == "NC":
+        return f"OSigClone {z(o[1])} {z(o[2])} {coq(o[3])}"
+    if k == "IT":
+        return "OIter " + " ".join(z(x) for x in o[1:8]) + " " + coq(o[8])
     raise ValueError(k)
 
 
@@ -494,43 +502,10 @@ def valid(item):
 # common check flow
 
 
-def check_terms(tag, terms, per_file=120, shards=F.NCPU, attempt=0):
-    """F.coq_check_cases with smaller files (a 400-case file of trees costs ~0.9 GB in coqc) and one
-    sequentialised retry of shards whose coqc died without a Coq error (killed under memory pressure).
-    A Coq error, or a shard that dies again, is reported."""
-    bad, errs = F.coq_check_cases(tag, HEADER, CHECK, terms, shards=shards, per_file=per_file)
-    if not errs or attempt >= 2:
-        return bad, errs
-    n = len(terms)
-    nfiles = max(1, min(max(shards, (n + per_file - 1) // per_file), n))
-    step = (n + nfiles - 1) // nfiles
-    keep, retry = [], []
-    for name, msg in errs:
-        if name.startswith("cases_") and "Error" not in msg:
-            k = int(name[6:])
-            retry += list(range(k, min(k + step, n)))
-        else:
-            keep.append((name, msg))
-    if retry:
-        b2, e2 = check_terms(tag + "_retry", [terms[i] for i in retry], per_file=60, shards=4, attempt=attempt + 1)
-        bad = sorted(bad + [retry[j] for j in b2])
-        keep += e2
-    return bad, keep
-
-
 def correspond(binpath, items, tag):
-    """as F.correspond, through check_terms"""
-    rc, outl, err = F.run_bin_parallel(binpath, [it["line"] for it in items])
-    if rc != 0 or len(outl) != len(items):
-        return outl, [], [("harness", f"rc={rc} lines={len(outl)}/{len(items)} stderr={err[-1500:]}")]
-    terms = []
-    for it, o in zip(items, outl):
-        try:
-            terms.append(f"({it['coq']}, {F.zlistlist(F.norm_obs_line(o))})")
-        except ValueError:
-            return outl, [], [("harness", f"unparsable observation line {o[:200]!r} for {it['line'][:200]!r}")]
-    bad, cerrs = check_terms(tag, terms)
-    return outl, bad, cerrs
+    """F.correspond with smaller coqc files (a 400-case file of trees costs ~0.9 GB in coqc);
+    the framework retries shards killed under memory pressure"""
+    return F.correspond(binpath, items, HEADER, CHECK, tag, per_file=120)
 
 
 def load_corpus(prop):
@@ -543,8 +518,20 @@ def load_corpus(prop):
     return items
 
 
+def mid_frame_clone(o, fm, bases=()):
+    """an interleaved-sample iterator cloned after a number of samples that is not a multiple of the
+    channel count (>= 2 channels) while the frame it sits in has been pulled from a live signal"""
+    if o[0] != "IT" or o[1] not in (2, 3) or o[4] != 1:
+        return False
+    n = FMTS[fm]["n"]
+    lv = live(op_tree(o), fm, bases)
+    return n >= 2 and o[3] % n != 0 and o[3] < min(lv, INF - 1) * n
+
+
 def case_nontrivial(it):
     fm = it["fmt"]
+    if any(mid_frame_clone(o, fm, it["bases"]) for o in it["ops"]):
+        return True
     for o in it["ops"]:
         arg = len(o[2]) if o[0] == "L" else None
         if nontrivial_tree(op_tree(o), fm, it["bases"], arg):
@@ -576,7 +563,10 @@ def run_check(rep, prop, tier, seed, gen_cases, rule, meta_expl, theorems_note):
     for it in items:
         hist["fmt:" + it["fmt"]] = hist.get("fmt:" + it["fmt"], 0) + 1
         for o in it["ops"]:
-            hist["op:" + o[0]] = hist.get("op:" + o[0], 0) + 1
+            key = "op:" + o[0] + (f":kind{o[1]}:mode{o[4]}" if o[0] == "IT" else "")
+            hist[key] = hist.get(key, 0) + 1
+            if mid_frame_clone(o, it["fmt"], it["bases"]):
+                hist["feature:clone_taken_mid_frame"] = hist.get("feature:clone_taken_mid_frame", 0) + 1
             for nd in nodes(op_tree(o), it["bases"]):
                 hist["node:" + nd[0]] = hist.get("node:" + nd[0], 0) + 1
         d = max([depth(op_tree(o), it["bases"]) for o in it["ops"]] + [0])
